@@ -352,10 +352,16 @@ package wasp
 //@   ensures #registry[session.id] == 0 ==> (forall x int32 :: pool_out(w.midPool, x) <==> (old(pool_out(w.midPool, x)) && x != unbox(stored, *packet.Publish).MessageId))
 // overdue: the same PUBLISH again
 //@   ensures #registry[session.id] != 0 && expired ==> #inserts <= old(#inserts) + 1 && (#inserts == old(#inserts) + 1 ==> #lastInsertPkt == asiface(publish) && wrote(3) && #lastWirePkt == publish)
+// ... as a QoS 2 delivery again (registered with this very callback, which goes on to PUBREL when the PUBREC arrives): a
+// retransmission through the QoS 1 path would release the identifier on PUBREC and never send PUBREL
+//@   ensures [C03] #registry[session.id] != 0 && expired ==> #qos2Resends == old(#qos2Resends) + 1
+//@   ensures [C03] !(#registry[session.id] != 0 && expired) ==> #qos2Resends == old(#qos2Resends)
 // PUBREC received: PUBREL with the stored identifier
 //@   ensures #registry[session.id] != 0 && !expired ==> wrote(6) && #lastWireTo == session.conn
 //@   ensures #registry[session.id] != 0 ==> (forall x int32 :: pool_out(w.midPool, x) <==> old(pool_out(w.midPool, x)))
 
+//@ ghost-after (*writer).sendQoS2$1 call (*writer).sendQoS2
+//@   set #qos2Resends := #qos2Resends + 1
 // the PUBREL of an outbound QoS 2 delivery carries the identifier of the PUBLISH it completes
 //@ callsite (*writer).sendQoS2$1 -> (*writer).completeQoS2(ctx context.Context, pubRel *packet.PubRel, session *sessions.Session)
 //@   requires pubRel.MessageId == unbox(stored, *packet.Publish).MessageId
